@@ -364,6 +364,7 @@ func isIdentFirstChar(ch rune) bool { return isLetter(ch) || ch == '_' }
 // bufScanner represents a wrapper for scanner to add a buffer.
 // It provides a fixed-length circular buffer that can be unread.
 type bufScanner struct {
+	verifScanState
 	s   *Scanner
 	i   int // buffer index
 	n   int // buffer size
@@ -391,6 +392,7 @@ func (s *bufScanner) ScanRegex() (tok Token, pos Pos, lit string) {
 
 // scanFunc uses the provided function to scan the next token.
 func (s *bufScanner) scanFunc(scan func() (Token, Pos, string)) (tok Token, pos Pos, lit string) {
+	s.verifStep()
 	// If we have unread tokens then read them off the buffer first.
 	if s.n > 0 {
 		s.n--
@@ -410,6 +412,7 @@ func (s *bufScanner) Unscan() { s.n++ }
 
 // curr returns the last read token.
 func (s *bufScanner) curr() (tok Token, pos Pos, lit string) {
+	s.verifCurr()
 	buf := &s.buf[(s.i-s.n+len(s.buf))%len(s.buf)]
 	return buf.tok, buf.pos, buf.lit
 }
@@ -417,6 +420,7 @@ func (s *bufScanner) curr() (tok Token, pos Pos, lit string) {
 // reader represents a buffered rune reader used by the scanner.
 // It provides a fixed-length circular buffer that can be unread.
 type reader struct {
+	verifReaderState
 	r   io.RuneScanner
 	i   int // buffer index
 	n   int // buffer char count
@@ -451,6 +455,7 @@ func (r *reader) read() (ch rune, pos Pos) {
 	// If we have unread characters then read them off the buffer first.
 	if r.n > 0 {
 		r.n--
+		r.verifReplay()
 		return r.curr()
 	}
 
@@ -472,6 +477,7 @@ func (r *reader) read() (ch rune, pos Pos) {
 	r.i = (r.i + 1) % len(r.buf)
 	buf := &r.buf[r.i]
 	buf.ch, buf.pos = ch, r.pos
+	r.verifNoteRead(err == nil)
 
 	// Update position.
 	// Only count EOF once.
@@ -498,6 +504,7 @@ func (r *reader) unread() {
 
 // curr returns the last read character and position.
 func (r *reader) curr() (ch rune, pos Pos) {
+	r.verifCurr()
 	i := (r.i - r.n + len(r.buf)) % len(r.buf)
 	buf := &r.buf[i]
 	return buf.ch, buf.pos
